@@ -127,6 +127,7 @@ def run(tier):
     rule_R5(res, prog)
     rule_R6(res, prog)
     rule_R7(res, prog)
+    rule_R8(res, prog)
     return res.finish()
 
 
@@ -629,4 +630,44 @@ def rule_R7(res, prog):
                                  "a half-built reply flight (NULL read in sslEncodeResponse after an allocation failure)" % (
                                      fn.relfile, ln, [p_[1] for p_ in esc[-6:-1]]), file=fn.relfile, line=ln)
                 res.instance(rid, "matrixSslReceivedData:%s return of the decoder's error cause under SSL_FLAGS_ERROR" % ln, esc is None, finding=f_)
+    res.floor(rid, 1)
+
+
+def rule_R8(res, prog):
+    """'the only undecryptable records ever tolerated are those a TLS 1.3 server must skip while rejecting early data, up to
+    the configured limit': in matrixSslDecodeTls13 every comparison of ssl->tls13ReceivedEarlyDataLen with
+    ssl->tls13SessionMaxEarlyData on the undecryptable-record arm judges the total INCLUDING the record at hand - the
+    addition of the record's length reaches the comparison on every path - and the tolerated side is `<=` the limit (the
+    over-limit side a fatal alert).  Comparing first and counting afterwards skips one more full record than configured."""
+    import re
+    from sa import cfgutil as cu
+    rid = "C15.R8"
+    res.rule(rid, "skipped early data: the running total is compared with the limit after the current record was added, tolerated side <= limit")
+    fn = prog.fn("matrixSslDecodeTls13")
+    n = 0
+
+    def counts(x):
+        return any(m.get("k") == "bin" and m["op"] == "+=" and (strip(m["l"]) or {}).get("f") == "tls13ReceivedEarlyDataLen" for m in walk(x))
+    for b in fn.blocks:
+        t = b.get("term")
+        if t is None or "c" not in t:
+            continue
+        tx = cu.ftext(t["c"])
+        mm = re.match(r"^\(ssl->tls13ReceivedEarlyDataLen (<=|<|>|>=) ssl->tls13SessionMaxEarlyData\)$", tx)
+        if not mm:
+            continue
+        n += 1
+        esc = cu.escapes(fn, (fn.entry, None), counts, target_expr=lambda y, c=t["c"]: y is c or any(q is c for q in walk(y)))
+        op_ok = mm.group(1) in ("<=", ">")
+        why = []
+        if esc is not None:
+            why.append("the comparison is reached (via lines %s) before the record at hand was added to the total: one more full "
+                       "record than configured is skipped without an alert" % [p_[1] for p_ in esc[-5:-1]])
+        if not op_ok:
+            why.append("the comparison is `%s`: the boundary of the tolerated side is not `total <= limit`" % mm.group(1))
+        f_ = None
+        if why:
+            f_ = Finding(PROP, rid, fn.name, "early-data skip budget compared before counting",
+                         "%s:%s matrixSslDecodeTls13(): %s" % (fn.relfile, t["ln"], "; ".join(why)), file=fn.relfile, line=t["ln"])
+        res.instance(rid, "matrixSslDecodeTls13:%s skip budget judged on the total including the current record" % t["ln"], not why, finding=f_)
     res.floor(rid, 1)
